@@ -499,12 +499,17 @@ class StridedInterval:
         if len(ssplit) == 1:
             lower = self.lower_bound >> shift_amount
             upper = self.upper_bound >> shift_amount
-            stride = max(self.stride >> shift_amount, 1)
+            # the shifted members keep a common difference only when the stride is a multiple of 2**shift_amount
+            stride = self.stride >> shift_amount if self.stride % (1 << shift_amount) == 0 else 1
+            stride = max(stride, 1)
 
             return StridedInterval(
                 bits=self.bits, lower_bound=lower, upper_bound=upper, stride=stride, uninitialized=self.uninitialized
             )
         a = ssplit[0]._rshift_logical(shift_amount)
+        if ssplit[1].lower_bound > ssplit[1].upper_bound:
+            # the piece beyond the south pole begins after the upper bound: it holds no member
+            return a
         b = ssplit[1]._rshift_logical(shift_amount)
 
         return a.union(b)
@@ -526,14 +531,24 @@ class StridedInterval:
         # back together for better precision. Note that it's an improvement from
         # the original WrappedIntervals paper.
 
-        nsplit = self._nsplit()
+        # split at the south pole first (_nsplit is only right for an interval that does not wrap around 2**bits), then at
+        # the north pole; pieces that begin after their upper bound hold no member
+        nsplit = [
+            half
+            for piece in self._ssplit()
+            if piece.lower_bound <= piece.upper_bound
+            for half in piece._nsplit()
+            if half.lower_bound <= half.upper_bound
+        ]
         if len(nsplit) == 1:
             # preserve the highest bit :-)
             highest_bit_set = self.lower_bound > StridedInterval.signed_max_int(nsplit[0].bits)
 
             lower = self.lower_bound >> shift_amount
             upper = self.upper_bound >> shift_amount
-            stride = max(self.stride >> shift_amount, 1)
+            # the shifted members keep a common difference only when the stride is a multiple of 2**shift_amount
+            stride = self.stride >> shift_amount if self.stride % (1 << shift_amount) == 0 else 1
+            stride = max(stride, 1)
             mask = (2**shift_amount - 1) << (self.bits - shift_amount)
 
             if highest_bit_set:
@@ -544,10 +559,7 @@ class StridedInterval:
             return StridedInterval(
                 bits=self.bits, lower_bound=lower, upper_bound=upper, stride=stride, uninitialized=self.uninitialized
             )
-        a = nsplit[0]._rshift_arithmetic(shift_amount)
-        b = nsplit[1]._rshift_arithmetic(shift_amount)
-
-        return a.union(b)
+        return StridedInterval.least_upper_bound(*[half._rshift_arithmetic(shift_amount) for half in nsplit])
 
     #
     # Comparison operations
